@@ -23,6 +23,7 @@ const RepoModule = "github.com/boombuler/barcode"
 type InitState struct {
 	Heap  map[string]map[int64]*T // class -> ref -> component value
 	Maps  map[int64]*MapObj
+	Extra map[string]*T // classes with non-constant keys (boxed values): initial array term
 	Alloc int64
 }
 
@@ -101,6 +102,14 @@ func Load(dir string) (*Program, error) {
 		sort.Strings(names)
 		for _, n := range names {
 			p.globalRef(sp.Members[n].(*ssa.Global))
+		}
+	}
+	for _, t := range p.allNamed {
+		if st, ok := t.Underlying().(*types.Struct); ok && st.NumFields() > 0 {
+			f := st.Field(0)
+			if _, isS := f.Type().Underlying().(*types.Struct); isS && f.Embedded() {
+				embedCanon["f:"+typeKey(t)+"."+f.Name()] = "f:" + typeKey(f.Type())
+			}
 		}
 	}
 	sort.Slice(p.allNamed, func(i, j int) bool { return typeKey(p.allNamed[i]) < typeKey(p.allNamed[j]) })
@@ -355,7 +364,20 @@ func (p *Program) pkgOfDefine(d *contract.Define) *types.Package {
 func (p *Program) pkgOfSpec(s *contract.FuncSpec) *types.Package { return p.specPkg[s] }
 
 func (p *Program) ifaceSpec(iface types.Type, m *types.Func) *contract.FuncSpec {
-	return p.ifaceSp[typeKey(iface)+"."+m.Name()]
+	if s := p.ifaceSp[typeKey(iface)+"."+m.Name()]; s != nil {
+		return s
+	}
+	var keys []string
+	for k := range p.ifaceSp {
+		if strings.HasSuffix(k, "."+m.Name()) {
+			keys = append(keys, k)
+		}
+	}
+	sort.Strings(keys)
+	if len(keys) > 0 {
+		return p.ifaceSp[keys[0]]
+	}
+	return nil
 }
 func (p *Program) funcTypeSpec(t types.Type) *contract.FuncSpec { return p.ftypeSp[typeKey(t)] }
 func (p *Program) extSpec(fn *ssa.Function) *contract.FuncSpec  { return p.extSp[fn.String()] }
@@ -444,7 +466,7 @@ func (p *Program) FindFunc(q string) (*ssa.Function, error) {
 
 func (p *Program) classesOfType(t types.Type, prefix string, out map[string]bool) {
 	for _, c := range comps(t) {
-		out[prefix+c.suffix] = true
+		out[canon(prefix+c.suffix)] = true
 	}
 }
 
@@ -596,6 +618,45 @@ func (p *Program) callees(c *ssa.CallCommon) []*ssa.Function {
 	}
 	sort.Slice(out, func(i, j int) bool { return fnName(out[i]) < fnName(out[j]) })
 	return out
+}
+
+// addressTaken: functions / closures of the given signature that are used as values in the module.
+func (p *Program) addressTaken(sig *types.Signature) []*ssa.Function {
+	seen := map[*ssa.Function]bool{}
+	var out []*ssa.Function
+	for fn := range ssautil.AllFunctions(p.SSA) {
+		if fn.Pkg == nil || !p.isRepoPkg(fn.Pkg.Pkg) {
+			continue
+		}
+		for _, b := range fn.Blocks {
+			for _, ins := range b.Instrs {
+				var cand *ssa.Function
+				switch i := ins.(type) {
+				case *ssa.MakeClosure:
+					cand = i.Fn.(*ssa.Function)
+				default:
+					for _, op := range ins.Operands(nil) {
+						if f, ok := (*op).(*ssa.Function); ok {
+							if ci, isCall := ins.(ssa.CallInstruction); isCall && ci.Common().Value == f {
+								continue
+							}
+							cand = f
+						}
+					}
+				}
+				if cand != nil && !seen[cand] && types.Identical(stripRecv(cand.Signature), stripRecv(sig)) {
+					seen[cand] = true
+					out = append(out, cand)
+				}
+			}
+		}
+	}
+	sort.Slice(out, func(i, j int) bool { return fnName(out[i]) < fnName(out[j]) })
+	return out
+}
+
+func stripRecv(s *types.Signature) *types.Signature {
+	return types.NewSignatureType(nil, nil, nil, s.Params(), s.Results(), s.Variadic())
 }
 
 // writtenClasses: every heap class the function (transitively) may store to, including the
